@@ -1,6 +1,153 @@
-import MotoModel.Model.DiskCli
-import MotoModel.Gen.Cli
+/-
+  C20 — archive creation is a pure function of its sources; reading modifies nothing.
+-/
+import MotoModel.Props.C09
+import MotoModel.Props.C18
 namespace Moto.C20
 open Moto
-theorem placeholder : Gen.Cli.tools.length = 7 := rfl
+
+/-! ### tape -/
+
+theorem specFile_congr (w w' : Tape.World) (s : Str) (h : Tape.contentOf w s = Tape.contentOf w' s) :
+    C03.specFile w s = C03.specFile w' s := by
+  simp [C03.specFile, h]
+
+/-- **C20 (tape creation is a function of the sources)**: two runs whose sources have the same
+    contents write byte-identical archives (or both write nothing) — whatever else differs in the
+    file system (an old archive at the target path included), in quiet or verbose mode, under any
+    archive name. -/
+theorem tape_create_pure (w w' : Tape.World) (v v' : Bool) (a a' : Str) (srcs : List Str)
+    (hr : Tape.AllReadable w srcs) (hr' : Tape.AllReadable w' srcs)
+    (hc : ∀ s ∈ srcs, Tape.contentOf w s = Tape.contentOf w' s) :
+    (Tape.inject w v a srcs).writes.map (·.2) = (Tape.inject w' v' a' srcs).writes.map (·.2)
+      ∧ (Tape.inject w v a srcs).status = (Tape.inject w' v' a' srcs).status := by
+  have hm : srcs.map (C03.specFile w) = srcs.map (C03.specFile w') :=
+    List.map_congr_left (fun s hs => specFile_congr w w' s (hc s hs))
+  by_cases hfit : Spec.K7.encSize (srcs.map (C03.specFile w)) < 21504
+  · have h1 := C09.accepted w v a srcs hr hfit
+    have h2 := C09.accepted w' v' a' srcs hr' (hm ▸ hfit)
+    rw [h1.2.1, h2.2.1, h1.1, h2.1, hm]; simp
+  · have h1 := C09.refused w v a srcs hr hfit
+    have h2 := C09.refused w' v' a' srcs hr' (hm ▸ hfit)
+    rw [h1.2.1, h2.2.1, h1.1, h2.1]; simp
+
+/-- reading a tape writes nothing at all (list), or only inside the destination (extract) -/
+theorem tape_list_readonly (verbose : Bool) (tape : Bytes) :
+    (Tape.enumerate verbose tape).writes = [] ∧ (Tape.enumerate verbose tape).mkdirs = [] := ⟨rfl, rfl⟩
+
+theorem tape_extract_only_destination (verbose : Bool) (archive : Str) (into : Option Str) (tape : Bytes) :
+    ∀ w ∈ (Tape.extract verbose archive into tape).writes,
+      ∃ f, w.1 = pathJoin (Tape.targetDirOf archive into) f ∧ f.contains 47 = false :=
+  C18.tape_confined verbose archive into tape
+
+/-! ### disk: the image does not depend on the listener (quiet / verbose) -/
+
+open Moto.Disk
+
+/-- what of the injector state reaches the archive -/
+def core (st : Inj) : Image × Nat := (st.img, st.cur)
+
+theorem injWriteFile_core (name ext : Str) (kind flag : Nat) (data : Bytes) (fuel : Nat) :
+    ∀ (a b : Inj), core a = core b →
+      (injWriteFile name ext kind flag data fuel a).map core = (injWriteFile name ext kind flag data fuel b).map core := by
+  induction fuel with
+  | zero => intro a b h; simp [injWriteFile, Except.map, h]
+  | succ f ih =>
+    intro a b h
+    obtain ⟨ai, ac, al⟩ := a
+    obtain ⟨bi, bc, bl⟩ := b
+    simp only [core, Prod.mk.injEq] at h
+    obtain ⟨rfl, rfl⟩ := h
+    simp only [injWriteFile]
+    by_cases hc : ac ≥ 4
+    · simp [hc, Except.map, core]
+    · simp only [hc, if_false]
+      cases hw : writeFile (ai.getD ac []) data name ext kind flag with
+      | ok sd => simp [Except.map, core]
+      | raised e sd =>
+        cases e with
+        | valueError m =>
+          simp only
+          cases hu : usageOfSide (ai.set ac sd) ac with
+          | error e => simp [Except.map]
+          | ok u =>
+            simp only
+            by_cases h4 : ac + 1 ≥ 4
+            · simp [h4, Except.map, core]
+            · simp only [h4, if_false]
+              exact ih _ _ rfl
+        | indexError => simp [Except.map]
+        | typeError => simp [Except.map]
+        | overflowError => simp [Except.map]
+        | unicodeError => simp [Except.map]
+        | nameError => simp [Except.map]
+        | attributeError => simp [Except.map]
+        | osError k => simp [Except.map]
+
+theorem injFile_core (w w' : Tape.World) (src : Str) (hw : w (splitSource src).2.2.2 = w' (splitSource src).2.2.2)
+    (a b : Inj) (h : core a = core b) :
+    (injFile w src a).map (fun r => (core r.1, r.2)) = (injFile w' src b).map (fun r => (core r.1, r.2)) := by
+  unfold injFile
+  dsimp only
+  rw [← hw]
+  cases hd : w (splitSource src).2.2.2 with
+  | none => simp [Except.map, core] at h ⊢; exact h
+  | some data =>
+    dsimp only
+    split
+    · simp [Except.map, core] at h ⊢; exact h
+    · split
+      · simp [Except.map, core] at h ⊢; exact h
+      · have := injWriteFile_core (splitSource src).1
+          (dispatch (splitSource src).1 (splitSource src).2.1 (splitSource src).2.2.1).2.2
+          (dispatch (splitSource src).1 (splitSource src).2.1 (splitSource src).2.2.1).1
+          (dispatch (splitSource src).1 (splitSource src).2.1 (splitSource src).2.2.1).2.1 data 4 a b h
+        revert this
+        cases injWriteFile _ _ _ _ data 4 a <;> cases injWriteFile _ _ _ _ data 4 b <;> simp [Except.map]
+
+theorem injLoop_core (w w' : Tape.World) (srcs : List Str) (hw : ∀ s ∈ srcs, w (splitSource s).2.2.2 = w' (splitSource s).2.2.2) :
+    ∀ (a b : Inj), core a = core b → (injLoop w srcs a).map core = (injLoop w' srcs b).map core := by
+  induction srcs with
+  | nil => intro a b h; simp [injLoop, Except.map, h]
+  | cons src rest ih =>
+    intro a b h
+    have hrest := ih (fun s hs => hw s (by simp [hs]))
+    obtain ⟨ai, ac, al⟩ := a
+    obtain ⟨bi, bc, bl⟩ := b
+    simp only [core, Prod.mk.injEq] at h
+    obtain ⟨rfl, rfl⟩ := h
+    simp only [injLoop]
+    split
+    · cases hu : usageOfSide ai ac with
+      | error e => simp [Except.map]
+      | ok u =>
+        dsimp only
+        by_cases h4 : ac + 1 ≥ 4
+        · simp [h4, Except.map, core]
+        · simp only [h4, if_false]
+          exact hrest _ _ rfl
+    · have hf := injFile_core w w' src (hw src (by simp)) ⟨ai, ac, al⟩ ⟨ai, ac, bl⟩ rfl
+      cases h1 : injFile w src ⟨ai, ac, al⟩ with
+      | error e1 =>
+        cases h2 : injFile w' src ⟨ai, ac, bl⟩ with
+        | error e2 => rw [h1, h2] at hf; simpa [Except.map] using hf
+        | ok r2 => rw [h1, h2] at hf; simp [Except.map] at hf
+      | ok r1 =>
+        cases h2 : injFile w' src ⟨ai, ac, bl⟩ with
+        | error e2 => rw [h1, h2] at hf; simp [Except.map] at hf
+        | ok r2 =>
+          obtain ⟨s1, p1⟩ := r1
+          obtain ⟨s2, p2⟩ := r2
+          rw [h1, h2] at hf
+          simp only [Except.map, Except.ok.injEq, Prod.mk.injEq] at hf
+          obtain ⟨hc, hp⟩ := hf
+          subst hp
+          have hcur : s1.cur = s2.cur := by simp only [core, Prod.mk.injEq] at hc; exact hc.2
+          dsimp only
+          rw [hcur]
+          by_cases hq : (p1 && decide (s2.cur ≥ 4)) = true
+          · simp only [hq, if_true, Except.map, hc]
+          · simp only [hq, if_false]
+            exact hrest s1 s2 hc
+
 end Moto.C20
